@@ -71,17 +71,36 @@ func raceRun(run *core.Run, mix string, rounds int, repeats int) {
 		return
 	}
 	seen := map[string]bool{}
+	type job struct {
+		test, cold string
+		seed       int64
+	}
+	var jobs []job
 	for rep := 0; rep < repeats; rep++ {
+		jobs = append(jobs, job{"TestConcurrent", "", run.Seed + int64(rep)*7919})
+	}
+	// cold starts: one fresh process per family of entry points whose very first calls are concurrent
+	cold := []string{"build"}
+	if mix == "c13" {
+		cold = []string{"parse", "parse-modular", "render", "render-json", "build", "plain", "merge", "modfile-validators"}
+	}
+	for rep := 0; rep < repeats+1; rep++ {
+		for _, fam := range cold {
+			jobs = append(jobs, job{"TestColdStart", fam, run.Seed + int64(rep)*104729})
+		}
+	}
+	for rep, jb := range jobs {
 		outFile := filepath.Join(tmp, fmt.Sprintf("out-%d.json", rep))
 		logPrefix := filepath.Join(tmp, fmt.Sprintf("race-%d", rep))
-		cmd := exec.Command(bin, "-test.run", "TestConcurrent", "-test.count=1", "-test.timeout=20m")
+		cmd := exec.Command(bin, "-test.run", "^"+jb.test+"$", "-test.count=1", "-test.timeout=20m")
 		cmd.Dir = filepath.Join(srcDir(), "racetests")
 		cmd.Env = append(os.Environ(),
 			"GORACE=halt_on_error=0 log_path="+logPrefix,
 			fmt.Sprintf("VERIF_RACE_ROUNDS=%d", rounds),
 			"VERIF_RACE_OUT="+outFile,
 			"VERIF_RACE_MIX="+mix,
-			fmt.Sprintf("VERIF_SEED=%d", run.Seed+int64(rep)*7919),
+			"VERIF_RACE_COLD="+jb.cold,
+			fmt.Sprintf("VERIF_SEED=%d", jb.seed),
 		)
 		out, err := cmd.CombinedOutput()
 		b, rerr := os.ReadFile(outFile)
@@ -95,7 +114,11 @@ func raceRun(run *core.Run, mix string, rounds int, repeats int) {
 			return
 		}
 		run.Eval(int(rr.Calls))
-		run.Count("race_rounds", int64(rr.Rounds))
+		if jb.cold != "" {
+			run.Count("race_cold_start_processes", 1)
+		} else {
+			run.Count("race_rounds", int64(rr.Rounds))
+		}
 		run.Count("race_concurrent_calls", rr.Calls)
 		run.Count("race_overlapping_call_pairs_observed", rr.OverlappingPairs)
 		run.Count("race_distinct_inputs", int64(rr.DistinctInputs))
